@@ -3229,6 +3229,7 @@ where
             cv.state.generic_rules = self.state.generic_rules.clone();
             cv.state.eval_generic_rule = Some(ident.ident);
             cv.state.data_location.push_str(&self.state.data_location);
+            cv.state.visited_rules = self.state.visited_rules.clone();
             cv.state.is_group_to_choice_enum = true;
             cv.state.is_multi_type_choice = self.state.is_multi_type_choice;
             cv.visit_rule(rule)?;
@@ -3301,6 +3302,7 @@ where
             cv.state.generic_rules = self.state.generic_rules.clone();
             cv.state.eval_generic_rule = Some(ident.ident);
             cv.state.data_location.push_str(&self.state.data_location);
+            cv.state.visited_rules = self.state.visited_rules.clone();
             cv.state.is_multi_type_choice = self.state.is_multi_type_choice;
             cv.visit_rule(rule)?;
 
@@ -3374,6 +3376,7 @@ where
             cv.state.generic_rules = self.state.generic_rules.clone();
             cv.state.eval_generic_rule = Some(ident.ident);
             cv.state.data_location.push_str(&self.state.data_location);
+            cv.state.visited_rules = self.state.visited_rules.clone();
             cv.state.is_multi_type_choice = self.state.is_multi_type_choice;
             cv.visit_rule(rule)?;
 
